@@ -11,6 +11,6 @@ for d in checks/c*/; do
   n=$(basename "$d")
   go build -tags verif -o "bin/$n" "./$d" || rc=1
 done
-GOARCH=386 go build -tags verif -o bin/c19.386 ./checks/c19 || rc=1
+for n in c19 c04 c03; do GOARCH=386 go build -tags verif -o bin/$n.386 ./checks/$n || rc=1; done
 if [ -x tools/prebuild_race.sh ]; then tools/prebuild_race.sh || true; fi
 exit $rc
